@@ -553,6 +553,69 @@ pub fn block_nest(shape: &str, depth: usize) -> Vec<u8> {
     s.into_bytes()
 }
 
+pub const ALIAS_SHAPES: [&str; 4] = ["alias-even", "alias-deep-anchor", "alias-deep-use", "alias-chain"];
+
+fn dashes(s: &mut String, n: usize) {
+    for _ in 0..n {
+        s.push_str("- ");
+    }
+}
+
+/// Literal counterpart of the alias-nest documents: `b:` followed by `total - 1`
+/// nested block sequences (the innermost an empty flow sequence), i.e. a value of
+/// total nesting depth `total` counting the root mapping.
+pub fn alias_nest_literal(total: usize) -> Vec<u8> {
+    let mut s = String::from("b:\n");
+    dashes(&mut s, total.saturating_sub(2));
+    s.push_str("[]\n");
+    s.into_bytes()
+}
+
+/// Nesting depth composed through alias replay (block sequences; flow is capped
+/// by the parser). `alias-even` / `alias-deep-anchor` / `alias-deep-use`: one
+/// anchored nest of d1 sequences under key `a`, and under key `b` d2 sequences
+/// around `*x`, with 1 (root mapping) + d2 + d1 = `param` total levels, split
+/// evenly / 1990 in the anchor / 1990 at the use site. `alias-chain`: `param`
+/// links, each 1990 sequences deep and ending in an alias to the previous one
+/// (total depth 1 + 1990 x (param + 1)); every other default budget is respected.
+pub fn alias_nest(shape: &str, param: usize) -> Vec<u8> {
+    let mut s = String::new();
+    match shape {
+        "alias-chain" => {
+            s.push_str("a0: &a0\n");
+            dashes(&mut s, 1989);
+            s.push_str("[]\n");
+            for k in 1..=param {
+                s.push_str(&format!("a{k}: &a{k}\n"));
+                dashes(&mut s, 1990);
+                s.push_str(&format!("*a{}\n", k - 1));
+            }
+        }
+        _ => {
+            let inner = param.saturating_sub(1); // d1 + d2
+            let d1 = match shape {
+                "alias-even" => inner / 2,
+                "alias-deep-anchor" => inner.min(1990).max(inner.saturating_sub(1990)),
+                _ => inner.saturating_sub(inner.min(1990)).max(1), // alias-deep-use
+            }
+            .clamp(1, inner.saturating_sub(1).max(1));
+            let d2 = inner - d1;
+            s.push_str("a: &x\n");
+            dashes(&mut s, d1 - 1);
+            s.push_str("[]\n");
+            s.push_str("b:\n");
+            dashes(&mut s, d2);
+            s.push_str("*x\n");
+        }
+    }
+    s.into_bytes()
+}
+
+/// Total nesting depth (counting the root mapping) that `alias_nest` composes.
+pub fn alias_nest_total(shape: &str, param: usize) -> usize {
+    if shape == "alias-chain" { 1 + 1990 * (param + 1) } else { param }
+}
+
 pub fn flow_nest(shape: &str, depth: usize) -> Vec<u8> {
     let mut s = String::new();
     match shape {
